@@ -46,3 +46,60 @@ Proof.
       { unfold JitVmModel.alloc_vm in AV. rewrite A in AV. cbn [orb] in AV. rewrite N in AV. inversion AV. reflexivity. }
       right. destruct (AF1 R2) as [L1 [L2 _]]. repeat split; auto.
 Qed.
+
+
+(* release never asks for memory: under every pair of oracles the allocator invariant and the view accounting are kept, and
+   the views change only when C09's model says the block was deleted - then exactly by the views of that block's handle *)
+Theorem jit_release_joint okv okh bm c st s id off kv kh st' r s' :
+  JitProofs.cfg_ok c -> JitProofs.ginv c st -> JitProofs.valid_ptr c st id off -> vms_acct s ->
+  jit_release okv okh bm c st s id off kv kh = (st', r, s') ->
+  JitProofs.ginv c st' /\ vms_acct s' /\ (st', r) = JitModel.release c st id off /\
+  (vs_views s' = vs_views s /\ vs_heap s' = vs_heap s \/
+   exists bid h ids, r = JitModel.RRelease JitModel.Ok bid true /\ nth h (vs_handles s) None = Some ids /\
+                     vs_views s' = remove_ids ids (vs_views s) /\ vs_heap s' = pred (vs_heap s)).
+Proof.
+  intros Hc G VP I E. unfold jit_release in E.
+  pose proof (JitProofs.ginv_release c st id off Hc G VP) as GR.
+  destruct (JitModel.release c st id off) as [st1 r1] eqn:R. cbn [fst] in GR.
+  assert (SAME : (st1, r1, s) = (st', r, s') -> JitProofs.ginv c st' /\ vms_acct s' /\ (st', r) = (st1, r1) /\
+                 (vs_views s' = vs_views s /\ vs_heap s' = vs_heap s \/
+                  exists bid h ids, r = JitModel.RRelease JitModel.Ok bid true /\ nth h (vs_handles s) None = Some ids /\
+                                    vs_views s' = remove_ids ids (vs_views s) /\ vs_heap s' = pred (vs_heap s))).
+  { intros Q. inversion Q; subst. split; [exact GR|]. split; [exact I|]. split; [reflexivity|]. left. auto. }
+  destruct r1 as [? ? ? ?|e bid deleted|? ? ?|? ? ? ?| |]; try (apply SAME; exact E).
+  destruct e; try (apply SAME; exact E). destruct deleted; [|apply SAME; exact E].
+  destruct (find (fun p => fst p =? bid) bm) as [[b0 h]|]; [|apply SAME; exact E].
+  destruct (vm_step okv okh (VDel h) s kv kh) as [[[rv s1] kv1] kh1] eqn:V. inversion E; subst; clear E.
+  split; [exact GR|]. split; [eapply vm_step_acct; eauto|]. split; [reflexivity|].
+  cbn [vm_step] in V. destruct (nth h (vs_handles s) None) as [ids|] eqn:H; inversion V; subst; clear V.
+  - right. exists bid, h, ids. cbn. auto.
+  - left. auto.
+Qed.
+
+(* shrink never asks for memory either: under every pair of oracles both invariants are kept, the allocator state is C09's
+   `shrink`; a non-zero new size leaves views and block records untouched; size 0 behaves as release (same allocator state, the
+   views of at most one deleted block go away) *)
+Theorem jit_shrink_joint okv okh bm c st s id off ns kv kh st' r s' :
+  JitProofs.cfg_ok c -> JitProofs.ginv c st -> JitProofs.valid_ptr c st id off -> vms_acct s -> 0 <= ns ->
+  jit_shrink okv okh bm c st s id off ns kv kh = (st', r, s') ->
+  JitProofs.ginv c st' /\ vms_acct s' /\ (st', r) = JitModel.shrink c st id off ns /\
+  (ns <> 0 -> s' = s) /\
+  (ns = 0 -> st' = fst (JitModel.release c st id off)) /\
+  (vs_views s' = vs_views s /\ vs_heap s' = vs_heap s \/
+   exists h ids, ns = 0 /\ nth h (vs_handles s) None = Some ids /\
+                 vs_views s' = remove_ids ids (vs_views s) /\ vs_heap s' = pred (vs_heap s)).
+Proof.
+  intros Hc G VP I Hns E. unfold jit_shrink in E.
+  pose proof (JitProofs.ginv_shrink c st id off ns Hc G VP Hns) as GS.
+  destruct (JitModel.shrink c st id off ns) as [st1 r1] eqn:S. cbn [fst] in GS.
+  destruct (ns =? 0) eqn:Z0.
+  - apply Z.eqb_eq in Z0. subst ns.
+    destruct (jit_release okv okh bm c st s id off kv kh) as [[st2 r2] s2] eqn:R. inversion E; subst; clear E.
+    destruct (jit_release_joint okv okh bm c st s id off kv kh st2 r2 s' Hc G VP I R) as [_ [I2 [Q V]]].
+    split; [exact GS|]. split; [exact I2|]. split; [reflexivity|]. split; [congruence|]. split.
+    + intros _. unfold JitModel.shrink in S. cbn [Z.eqb] in S.
+      destruct (JitModel.release c st id off) as [st3 r3]. cbn [fst]. destruct r3; inversion S; reflexivity.
+    + destruct V as [V|[bid [h [ids [_ [V1 [V2 V3]]]]]]]; [left; exact V|right]. exists h, ids. auto.
+  - inversion E; subst; clear E. apply Z.eqb_neq in Z0.
+    split; [exact GS|]. split; [exact I|]. split; [reflexivity|]. split; [reflexivity|]. split; [contradiction|]. left. auto.
+Qed.
